@@ -185,6 +185,43 @@ func checkHandoffValues(p *core.Prog, r *core.Report) {
 			}
 			return true
 		}
+		// written with separate returns: `floor + size` (a multiple of the size whatever the remainder), or the value itself
+		// returned where its remainder was found zero
+		hRet := func(rt *ssa.Return) bool {
+			v := core.ResolveCell(core.ReturnValues(rt)[0])
+			if hClass(v, 3) {
+				return true
+			}
+			if add, ok := v.(*ssa.BinOp); ok && add.Op == token.ADD {
+				if _, isFl := hFloor(add.X); isFl && add.Y == ssa.Value(hSeg) {
+					return true
+				}
+				if _, isFl := hFloor(add.Y); isFl && add.X == ssa.Value(hSeg) {
+					return true
+				}
+			}
+			for d := rt.Block(); d != nil; d = d.Idom() {
+				idom := d.Idom()
+				if idom == nil || len(d.Preds) != 1 || d.Preds[0] != idom {
+					continue
+				}
+				ifi, isIf := idom.Instrs[len(idom.Instrs)-1].(*ssa.If)
+				if !isIf {
+					continue
+				}
+				c, neg := core.StripNot(ifi.Cond)
+				if bo, ok := c.(*ssa.BinOp); ok && (bo.Op == token.NEQ || bo.Op == token.EQL) && hRem(bo.X, v) && isZeroConst(bo.Y) {
+					zeroIdx := 1
+					if (bo.Op == token.EQL) != neg {
+						zeroIdx = 0
+					}
+					if idom.Succs[zeroIdx] == d {
+						return true
+					}
+				}
+			}
+			return false
+		}
 		nRet, okAll := 0, true
 		core.Instrs(h, func(in ssa.Instruction) {
 			rt, ok := in.(*ssa.Return)
@@ -192,7 +229,7 @@ func checkHandoffValues(p *core.Prog, r *core.Report) {
 				return
 			}
 			nRet++
-			if !hClass(rt.Results[0], 3) {
+			if !hRet(rt) {
 				okAll = false
 			}
 		})
